@@ -90,6 +90,12 @@ def gen(rng, depth, counter, allow_undeclared):
     foreign = rng.sample(FOREIGN, rng.randint(0, 3))
     if allow_undeclared and rng.random() < .3:
         foreign.append(('u:b', '9'))       # may stand next to a plain b="8": same local name, no namespace of its own
+    if rng.random() < .1:
+        # a prefix bound to a URI that merely resembles a template namespace (padded with white space, other letter case):
+        # somebody else's namespace - declaration and attributes are preserved, nothing is executed
+        uri = rng.choice([' http://xml.zope.org/namespaces/tal', 'http://xml.zope.org/namespaces/tal ', 'http://xml.zope.org/namespaces/TAL',
+                          'http://xml.zope.org/namespaces/i18n/'])
+        foreign = foreign + [('xmlns:pd', uri), ('pd:' + rng.choice(['content', 'omit-tag', 'translate']), 'kept')]
     if foreign and rng.random() < .08:
         foreign.append((foreign[0][0], 'again'))      # tag soup: the same attribute written twice
     counter[0] += 1
